@@ -57,6 +57,9 @@ var cur *Sched //nolint:gochecknoglobals
 // EarlyFail, when set, is called inside the bubble as soon as a deadlock / horizon is detected.
 var EarlyFail func(Failure) //nolint:gochecknoglobals
 
+// HorizonExit, when set, is called after EarlyFail on a livelock; it should end the process.
+var HorizonExit func(Failure) //nolint:gochecknoglobals
+
 // Active reports whether a scheduler is installed (harness fakes use it to decide whether to park).
 func Active() bool { return cur != nil }
 
@@ -579,6 +582,18 @@ func RunOne(t *testing.T, sc Scenario, prefix []int) (s *Sched, outcome, failure
 			max = 2000
 		}
 		s.loop(max)
+		if s.Dead == "horizon" {
+			// threads are still runnable (spinning): they cannot be released without the scheduler, so the
+			// bubble cannot be drained. Report and give up this process.
+			f := Failure{Msg: "horizon: step cap reached with runnable threads (livelock)", Choices: append([]int{}, s.choice...), Trace: s.Trace}
+			if EarlyFail != nil {
+				EarlyFail(f)
+			}
+			if HorizonExit != nil {
+				HorizonExit(f)
+			}
+			panic("zzmc: " + f.Msg + fmt.Sprintf(" choices=%v", f.Choices))
+		}
 		s.release()
 		if fin == nil {
 			failure = "setup did not complete"
